@@ -878,7 +878,12 @@ class ShaFile:
         obj_class = object_class(self.type_num)
         if obj_class is None:
             raise AssertionError(f"invalid type num {self.type_num}")
-        return obj_class.from_raw_string(self.type_num, self.as_raw_string(), self.id)
+        return obj_class.from_raw_string(
+            self.type_num,
+            self.as_raw_string(),
+            self.id,
+            object_format=self.object_format,
+        )
 
     @property
     def id(self) -> ObjectID:
